@@ -400,3 +400,25 @@ pub fn gen_ambiguous_kind(t: &mut Tape, name: &str, force_kind: Option<usize>) -
         needs_expansion: needs,
     })
 }
+
+/// A declaration set with more handlers than fit any one-byte index (300 + standard commands):
+/// `BANK<k>:C<j>` commands and queries.
+pub fn big_spec(name: &str) -> Spec {
+    let mut decls = Vec::new();
+    for k in 0..300usize {
+        let bank = ["ALPHa", "BETA", "GAMMa", "DELTa", "EPSilon"][k % 5];
+        let cmd = format!("{}:C{}x{}", bank, k / 5, if k % 2 == 0 { "" } else { "?" });
+        decls.push(Decl {
+            cmd,
+            params: if k % 7 == 0 { vec![Ty::U16] } else { vec![] },
+            ret: if k % 2 == 0 { RetTy::None } else { RetTy::Int(Ty::U16) },
+            is_async: k % 3 == 0,
+        });
+    }
+    Spec {
+        name: name.to_string(),
+        standard: true,
+        errors: true,
+        decls,
+    }
+}
